@@ -400,7 +400,22 @@ class BuiltinMixin:
         return SV('list', self.st.alloc(HList(self.iter_concrete(a))))
 
     def bi_sorted(self, args, kw, node):
-        raise Unsupported('sorted')
+        """stable insertion sort of a concrete-length iterable; every comparison of symbolic keys is a decision of the path"""
+        items = list(self.iter_concrete(args[0]))
+        if len(items) > 5:
+            raise Unsupported('sorted() of more than 5 elements')
+        keyf = kw.get('key')
+        keys = [self.call_value(keyf, [x], {}, node) if keyf is not None and keyf.k != 'none' else x for x in items]
+        rev = kw.get('reverse')
+        if rev is not None and not (rev.k == 'bool' and z3.is_false(z3.simplify(rev.t))):
+            raise Unsupported('sorted(reverse=...)')
+        out = []
+        for x, kx in zip(items, keys):
+            pos = len(out)
+            while pos > 0 and self.branch(self.compare('Lt', kx, out[pos - 1][1], node)):
+                pos -= 1
+            out.insert(pos, (x, kx))
+        return SV('list', self.st.alloc(HList([x for x, _ in out])))
 
     def bi_dict(self, args, kw, node):
         d = {}
@@ -595,7 +610,8 @@ class BuiltinMixin:
                     h.d[kk] = VI(self.as_int(h.d.get(kk, VI(0))) + 1)
                 return NONE
             if name == 'update':
-                h.d.update(self.st.heap[args[0].t].d)
+                for k_, v_ in list(self.st.heap[args[0].t].d.items()):
+                    h.d[self.dict_key(h, self.unkey(k_)) if (k_[0] == 's' or any(x[0] == 's' for x in h.d)) else k_] = v_
                 return NONE
             if name == 'setdefault':
                 kk = self.dict_key(h, args[0])
@@ -619,6 +635,16 @@ class BuiltinMixin:
                 return VI(z3.Sum(*[z3.If(self.equal(x, args[0]), 1, 0) for x in recv.t]) if recv.t else 0)
         if k == 'const' and isinstance(recv.t, tuple) and recv.t and recv.t[0] == 'struct' and name == 'pack':
             return self.struct_pack(recv.t[1], args, node)
+        if (k == 'bytes' or (k == 'const' and isinstance(recv.t, (bytes, bytearray)))) and name == 'join':
+            sep = self.as_seq(recv)
+            out = []
+            for i, x in enumerate(self.iter_concrete(args[0])):
+                if not self.is_bytes_like(x):
+                    raise PyRaise('TypeError', 'bytes.join of a non-bytes item')
+                if i:
+                    out.append(sep)
+                out.append(self.as_seq(x))
+            return VBY(z3.Concat(*out) if len(out) > 1 else (out[0] if out else z3.Empty(SEQ)))
         if k == 'const' and isinstance(recv.t, str):
             if all(a.k == 'const' for a in args) and all(v.k == 'const' for v in kw.values()) and name not in ('format',):
                 if name == 'encode':
